@@ -13,7 +13,7 @@ use serde_json::json;
 pub const SPEC: PropSpec = PropSpec {
 	id: "C07",
 	level: "exploration",
-	rule: "valid: the schema AST (fullnames fixed first) is rendered to a random JSON spelling (namespace via dotted name / namespace attribute / inheritance / reset with \"\"; contradicting namespace next to a dotted name; definition placed at a random one of the type's occurrences, i.e. before OR after its uses; short vs full references; shuffled attribute order; doc/aliases/default/order/unknown attributes; primitives as strings or objects; optional decimal scale omitted; unicode escapes; whitespace) and parsed; the node graph read back through SchemaMut::nodes() must be bisimilar to the AST (kinds, fullnames, field names+order, symbols, sizes, logical types+parameters, reference targets) and its canonical form (hook H1) must equal the reference one. invalid: unknown reference, duplicate fullname (same or different spelling), missing name/fields/symbols/items/values/size, record unconditionally containing itself (directly / through a record chain, also with forward references) must be rejected. distinct by hash(document text)",
+	rule: "valid: the schema AST (fullnames fixed first) is rendered to a random JSON spelling (namespace via dotted name / namespace attribute / inheritance / reset with \"\"; contradicting namespace next to a dotted name; definition placed at a random one of the type's occurrences, i.e. before OR after its uses; short vs full references; shuffled attribute order; doc/aliases/default/order/unknown attributes; primitives as strings or objects; optional decimal scale omitted; unicode escapes; whitespace) and parsed; the node graph read back through SchemaMut::nodes() must be bisimilar to the AST (kinds, fullnames, field names+order, symbols, sizes, logical types+parameters, reference targets) and its canonical form (hook H1) must equal the reference one. invalid: unknown reference (also one that spells an alias of a type of the document), duplicate fullname (same or different spelling), missing name/fields/symbols/items/values/size, record unconditionally containing itself (directly / through a record chain, also with forward references) must be rejected. distinct by hash(document text)",
 	assumptions: &["spellings the specification leaves undefined (leading-dot references, nested type objects) are not generated as valid"],
 	cases: (50_000_000, 4_000_000_000),
 	secs: (30, 600),
@@ -200,7 +200,22 @@ fn invalid_case(ctx: &mut Ctx, case_seed: u64, rs: &RSchema, rng: &mut Rng) {
 	match rng.below(4) {
 		0 => {
 			// unknown reference: embed the document in a record with a dangling reference
-			let bogus = (*rng.pick(&["Missing", "a.b.Missing", "no.Such", "int2", "Int"])).to_owned();
+			// (the last three spell an *alias* of a type of the document: aliases rename for schema resolution between
+			// writer and reader, they do not define a name that can be referred to)
+			let bogus = (*rng.pick(&["Missing", "a.b.Missing", "no.Such", "int2", "Int", "AliasOfEnum", "zz.AliasOfEnum", "other.AliasFull"])).to_owned();
+			let aliased = J::Obj(vec![
+				("name".into(), J::s("al")),
+				(
+					"type".into(),
+					J::Obj(vec![
+						("type".into(), J::s("enum")),
+						("name".into(), J::s("zz.WithAlias")),
+						("aliases".into(), J::Arr(vec![J::s("AliasOfEnum"), J::s("other.AliasFull")])),
+						("symbols".into(), J::Arr(vec![J::s("A")])),
+					]),
+				),
+			]);
+			let alias_first = rng.coin();
 			let via = rng.below(3);
 			let dangling = match via {
 				0 => J::s(&bogus),
@@ -212,10 +227,19 @@ fn invalid_case(ctx: &mut Ctx, case_seed: u64, rs: &RSchema, rng: &mut Rng) {
 				("name".into(), J::s("zz.Top")),
 				(
 					"fields".into(),
-					J::Arr(vec![
-						J::Obj(vec![("name".into(), J::s("d")), ("type".into(), dangling)]),
-						J::Obj(vec![("name".into(), J::s("x")), ("type".into(), j)]),
-					]),
+					J::Arr(if alias_first {
+						vec![
+							aliased,
+							J::Obj(vec![("name".into(), J::s("d")), ("type".into(), dangling)]),
+							J::Obj(vec![("name".into(), J::s("x")), ("type".into(), j)]),
+						]
+					} else {
+						vec![
+							J::Obj(vec![("name".into(), J::s("d")), ("type".into(), dangling)]),
+							J::Obj(vec![("name".into(), J::s("x")), ("type".into(), j)]),
+							aliased,
+						]
+					}),
 				),
 			]);
 			class = "unknown-reference";
